@@ -2,7 +2,7 @@ PROPS["C17"] = P(
     "fault_enumeration",
     "one case = one fault plan executed against try_build_func / try_build_filter (4 function and 3 filter variants over the three shard/edge logics, both signature widths, both backends; online and offline store): "
     "the harness's ProbeLender serves the keys (and, for functions, the values), returns an io::Error carrying a tag unique to the case from `next` at a planned (pass, position) or from the planned n-th `rewind`, "
-    "and records per pass the number of next calls, items served and how the pass ended (the trace is in every violation detail and sample). Positions: EVERY position 0..=len (one build each) for inputs of at most 300 items, "
+    "and records per pass the number of next calls, items served and how the pass ended (the trace is in every violation detail and sample). Positions: EVERY position 0..=len (one build each) for small inputs (pass 1: n in 1,2,3,10,100 for every lender and n = 300 for the key lender; retry passes: n = 10 and 100 (duplicate-forced) and 105 (screened); thorough: n = 300 for every lender and pass), "
     "first/second/middle/last-but-one/last/at-end for inputs of 10^3..1.5*10^5 (thorough 4*10^5) items; passes 1, 2, 3, 4 and rewinds 1, 2, 3; lenders: keys, values, both. Retry passes are forced deterministically "
     "(a) by one duplicated key under check_dups(true) and (b) by builder seeds screened with fault-free runs on key counts whose first attempts almost always fail (105, 198, 340; thorough also an over-full shard at 800000 keys). "
     "Judgement: after a delivered fault the result must be Err whose chain contains the tag (Ok = violation `ok-after-fault`, another error = `wrong-error`); duplicates (adjacent, first+last, far apart, multiplicity 2..10 spread or as a run, "
